@@ -119,6 +119,19 @@ CHECKS["C06"] = {
     "note": "Depth 4 is sampled, not enumerated. Plain include/render/macro levels count as length 1 and must carry the enclosing product.",
 }
 
+CHECKS["C07"] = {
+    "technique": "invariant testing under limit sweeps with an independent size measure (recording RenderContext subclass)",
+    "text": "Random multi-byte templates with captures, partials and loops are rendered unlimited (U bytes, measured namespace maximum s) and then under sweeps of output_stream_limit and local_namespace_limit (0, 1, value-1, value, value+1, 2*value, 2 random): a completed render must return <= L bytes, U > L must raise OutputStreamLimitError, and a completed render must never have held locals whose independently measured size (own + ancestors through parent_context, recomputed after every accepted assign/capture) exceeded M.",
+    "design_ref": "DESIGN.md §4 C07",
+    "note": "Instrumentation is a RenderContext subclass installed through Environment.template_class (no source hook); reads the private attribute RenderContext.parent_context.",
+}
+CHECKS["C08"] = {
+    "technique": "metamorphic testing: per-limit monotone sweeps against the unlimited render",
+    "text": "For every generated strict-mode template and data set, each of the five resource limits is swept over 9-11 values from 0 to far beyond the resource used (~50 renders per case, each in its own Environment subclass); every outcome must equal the unlimited outcome or be a ResourceLimitError subclass, and success must be monotone in the limit value.",
+    "design_ref": "DESIGN.md §4 C08",
+    "note": "Strict mode only. The 'unlimited' baseline uses context_depth_limit 40 (not infinity) so that runaway recursion stays inside the Python stack; block nesting is checked at parse time.",
+}
+
 NOT_APPLICABLE = [
     {"property_id": p, "reason": "check not built yet in this round (work in progress; see DESIGN.md §4 for the planned oracle)"}
     for p in ALL
